@@ -1259,6 +1259,8 @@ impl<'a> G<'a> {
 
   fn lambda(&mut self, ps: &[Ty], r: &Ty, d: usize, hint: bool) -> Ex {
     let annotate = !hint || self.one_in(3);
+    // with an expected type available, annotations may also be given for some parameters only
+    let partial = hint && !annotate && ps.len() >= 2 && self.one_in(3);
     let mark = self.scope.len();
     self.lam_base.push(mark);
     self.lam_caps.push((false, false));
@@ -1266,7 +1268,8 @@ impl<'a> G<'a> {
     for p in ps {
       let n = self.fresh("a");
       self.push_var(&n, p.clone(), SMALL);
-      names.push(if annotate { format!("{n}: {}", self.ty_s(p)) } else { n });
+      let this_one = annotate || (partial && self.one_in(2));
+      names.push(if this_one { format!("{n}: {}", self.ty_s(p)) } else { n });
     }
     let saved_cap = self.call_cap;
     self.call_cap = self.call_cap.min(6);
@@ -1290,6 +1293,9 @@ impl<'a> G<'a> {
       if let Some(c) = self.lam_caps.last_mut() {
         c.1 = true;
       }
+    }
+    if partial {
+      self.feat("lambda-partially-annotated");
     }
     Ex { s: format!("({}) -> {}", names.join(", "), body.s), iv: SMALL, atom: false, pure_: true }
   }
